@@ -150,6 +150,12 @@ func Check(reg *Registry, property, tier, verifDir string) int {
 		fmt.Fprintf(os.Stderr, "no scenario serves %s\n", property)
 		return 2
 	}
+	// VERIF_OUT: where replays and evidence go (default: the verification directory itself). Used when the
+	// checks are run against a deliberately broken tree, so that committed evidence is never overwritten.
+	outDir := verifDir
+	if o := os.Getenv("VERIF_OUT"); o != "" {
+		outDir = o
+	}
 	known, err := LoadKnown(filepath.Join(verifDir, "known_findings.json"))
 	if err != nil {
 		fmt.Fprintf(os.Stderr, "known findings: %v\n", err)
@@ -281,8 +287,8 @@ func Check(reg *Registry, property, tier, verifDir string) int {
 			shrinkCap = 8 * time.Minute
 		}
 		min := Shrink(sc, *f.line.Plan, f.v.Class(), shrinkCap, reg.UnstableSUT[property])
-		os.MkdirAll(filepath.Join(verifDir, "replays"), 0o755)
-		replayPath = filepath.Join(verifDir, "replays", fmt.Sprintf("%s-%d-%d.json", property, base, f.line.I))
+		os.MkdirAll(filepath.Join(outDir, "replays"), 0o755)
+		replayPath = filepath.Join(outDir, "replays", fmt.Sprintf("%s-%d-%d.json", property, base, f.line.I))
 		rf := ReplayFile{Property: property, Class: f.v.Class(), Seed: f.line.Seed, RunIndex: f.line.I, Plan: min, Detail: f.v.Detail}
 		if err := os.WriteFile(replayPath, MustJSONIndent(rf), 0o644); err != nil {
 			fmt.Fprintf(os.Stderr, "write replay: %v\n", err)
@@ -326,8 +332,8 @@ func Check(reg *Registry, property, tier, verifDir string) int {
 		fmt.Println(l)
 	}
 	ev := agg.evidence(reg, property, tier, base, time.Since(t0).Seconds(), len(fresh), khits, scen)
-	os.MkdirAll(filepath.Join(verifDir, "evidence"), 0o755)
-	if err := os.WriteFile(filepath.Join(verifDir, "evidence", property+".json"), MustJSONIndent(ev), 0o644); err != nil {
+	os.MkdirAll(filepath.Join(outDir, "evidence"), 0o755)
+	if err := os.WriteFile(filepath.Join(outDir, "evidence", property+".json"), MustJSONIndent(ev), 0o644); err != nil {
 		fmt.Fprintf(os.Stderr, "write evidence: %v\n", err)
 		return 2
 	}
